@@ -712,7 +712,28 @@ pub struct RowEchelonVecMatrix<T: Entry> {
     result: VecMatrix<T>,
     columns: Vec<usize>,
     rank: usize,
-    nr_swaps: usize
+    nr_swaps: usize,
+    #[cfg(rust_dsymbols_verif)]
+    verif_steps: Vec<(usize, usize, usize, VecMatrix<T>, VecMatrix<T>)>
+}
+
+
+/// Read access for the conformance harness in /verif: the final state of the
+/// elimination and, while `verif::record(true)` is on, a snapshot
+/// (columns done, pivots found, swaps, result, multiplier) after every column.
+#[cfg(rust_dsymbols_verif)]
+impl<T: Entry + Clone> RowEchelonVecMatrix<T> {
+    pub fn verif_state(&self)
+        -> (&VecMatrix<T>, &VecMatrix<T>, &Vec<usize>, usize, usize)
+    {
+        (&self.multiplier, &self.result, &self.columns, self.rank, self.nr_swaps)
+    }
+
+    pub fn verif_steps(&self)
+        -> &Vec<(usize, usize, usize, VecMatrix<T>, VecMatrix<T>)>
+    {
+        &self.verif_steps
+    }
 }
 
 
@@ -723,6 +744,8 @@ impl<T: Entry + Clone> RowEchelonVecMatrix<T> {
         let mut row = 0;
         let mut nr_swaps = 0;
         let mut cols = vec![m.nr_rows(); m.nr_rows()];
+        #[cfg(rust_dsymbols_verif)]
+        let mut verif_steps = vec![];
 
         for col in 0..m.nr_columns() {
             if row >= m.nr_rows() {
@@ -742,6 +765,10 @@ impl<T: Entry + Clone> RowEchelonVecMatrix<T> {
                 cols[row] = col;
                 row += 1;
             }
+            #[cfg(rust_dsymbols_verif)]
+            if crate::verif::recording() {
+                verif_steps.push((col + 1, row, nr_swaps, u.clone(), s.clone()));
+            }
         }
 
         RowEchelonVecMatrix {
@@ -749,7 +776,9 @@ impl<T: Entry + Clone> RowEchelonVecMatrix<T> {
             result: u,
             columns: cols,
             rank: row,
-            nr_swaps
+            nr_swaps,
+            #[cfg(rust_dsymbols_verif)]
+            verif_steps
         }
     }
 }
